@@ -37,7 +37,8 @@ try:
 finally:
     subprocess.run(["git", "-C", "/repo", "checkout", "--", "."])
     # replay files written for the mutant are not evidence about the real tree
-    subprocess.run(["git", "-C", HERE, "checkout", "--", "evidence"], stderr=subprocess.DEVNULL)
+    subprocess.run(["git", "-C", HERE, "checkout", "--", "evidence", "replays"], stderr=subprocess.DEVNULL)
+    subprocess.run(["git", "-C", HERE, "clean", "-fdq", "replays"], stderr=subprocess.DEVNULL)
     subprocess.run(["git", "-C", HERE, "clean", "-fdq", "replays"], stderr=subprocess.DEVNULL)
     subprocess.run(["git", "-C", HERE, "checkout", "--", "replays"], stderr=subprocess.DEVNULL)
 json.dump(out, open("/tmp/seeded_last.json", "w"), indent=1)
